@@ -252,7 +252,27 @@ impl<'a, 'tcx> D<'a, 'tcx> {
                 let ej = self.expr(e);
                 o.fs("k", "Guard").f("pat", pj).f("cond", ej).done()
             }
-            Range(..) => o.fs("k", "Range").done(),
+            Range(lo, hi, end) => {
+                let mut bound = |pe: &Option<&'tcx hir::PatExpr<'tcx>>| -> Option<J> {
+                    pe.map(|pe| match &pe.kind {
+                        hir::PatExprKind::Lit { lit, negated } => {
+                            let l = self.lit(lit);
+                            J::obj().fs("k", "Lit").f("lit", l).fb("neg", *negated).done()
+                        }
+                        _ => J::obj().fs("k", "Other").done(),
+                    })
+                };
+                let lj = bound(lo);
+                let hj = bound(hi);
+                o.fs("k", "Range")
+                    .opt("lo", lj)
+                    .opt("hi", hj)
+                    .fs("end", match end {
+                        hir::RangeEnd::Included => "Included",
+                        hir::RangeEnd::Excluded => "Excluded",
+                    })
+                    .done()
+            }
             Slice(a, m, b) => {
                 let aj = a.iter().map(|x| self.pat(x)).collect();
                 let mj = m.map(|x| self.pat(x));
